@@ -12,14 +12,14 @@ from vf.props._parsework import Workload, DIALECTS, base_statements
 ID = 'C01'
 LEVEL = 'exploration'
 TECHNIQUE = 'runtime monitor: parse -> print -> re-parse on the real functions, compared with a reflective structural snapshot; failing statements localised to the smallest failing node'
-RULE = ('cases = corpus + templates covering every statement kind x 3 dialects (a statement is used in a dialect iff accepted), '
-        'plus accepted token-level mutants; each also through copy(); non-trivial = accepted with >= 4 tokens; distinct by '
-        '(dialect, token-type sequence)')
+RULE = ('cases = corpus + generated templates covering every statement kind x 3 dialects (a statement is used in a dialect iff '
+        'accepted) + hostile identifier lexemes (every token word, $/digit/space/dot decorations) in 13 positions; each also through '
+        'copy(); non-trivial = accepted with >= 4 tokens; distinct by (dialect, token-type sequence)')
 ASSUMPTIONS = ['identical tree = equal reflective struct (class + all attributes incl. alias and parentheses)',
                'statements rejected on first parse are outside C01']
 BUDGET = {'quick': (12, 90), 'thorough': (16, 600)}
-SIZES = {'quick': dict(n_templates=4000, n_mut=12000, n_soup=0, n_noise=False, n_lexeme=9000),
-         'thorough': dict(n_templates=40000, n_mut=150000, n_soup=0, n_noise=False, n_lexeme=60000)}
+SIZES = {'quick': dict(n_templates=6000, n_mut=0, n_soup=0, n_noise=False, n_lexeme=9000),
+         'thorough': dict(n_templates=60000, n_mut=0, n_soup=0, n_noise=False, n_lexeme=60000)}
 
 
 def floors(tier):
@@ -409,8 +409,10 @@ def localise(A, dialect, kind, detail):
         if oo:
             sig['feat'] = oo
     rq = raw_query_state(A, dialect)
-    if rq and kind == 'reparse-rejected':
+    if rq:
         sig['feat'] = rq
+        sig.pop('diff', None)
+        sig.pop('reject_at', None)
     return sig, {}
 
 
